@@ -36,10 +36,14 @@ func init() {
 				jobs = append(jobs, run.Job{ID: "alias/" + sp, Pkg: pkg, Harness: "H_Alias", Params: map[string]interface{}{"lower": sp}})
 			}
 			jobs = append(jobs, run.Job{ID: "getinfo", Pkg: pkg, Harness: "H_GetInfo", Params: map[string]interface{}{}, Weight: 10})
+			// byte-vector strings: every name of 1..12 ASCII characters (decides lookups that order or search)
+			for n := 1; n <= 12; n++ {
+				jobs = append(jobs, run.Job{ID: fmt.Sprintf("getinfo-bytes/len%d", n), Pkg: pkg, Harness: "H_GetInfoBytes", Params: map[string]interface{}{"len": n}})
+			}
 			return jobs, nil
 		},
-		NeedCovers: []string{"cover.inverse.hit", "cover.inverse.miss", "cover.two_entries", "cover.oracle.common", "cover.auditid", "cover.alias", "cover.getinfo.ok", "cover.getinfo.err", "cover.getinfo.unknown"},
-		Bounds:     map[string]interface{}{"tables": "all five, every entry (about 2000 name/number pairs)", "oracles": "Go syscall package, golang.org/x/sys/unix v0.48.0, host UAPI headers (unistd_32/64/x32.h, asm-generic/unistd.h)", "spellings": "all strings, through lower(): every key of the package's architecture map plus unknown names; any letter case"},
+		NeedCovers: []string{"cover.inverse.hit", "cover.inverse.miss", "cover.two_entries", "cover.oracle.common", "cover.auditid", "cover.alias", "cover.getinfo.ok", "cover.getinfo.err", "cover.getinfo.unknown", "cover.getinfo_bytes.ok", "cover.getinfo_bytes.err"},
+		Bounds:     map[string]interface{}{"tables": "all five, every entry (about 2000 name/number pairs)", "oracles": "Go syscall package, golang.org/x/sys/unix v0.48.0, host UAPI headers (unistd_32/64/x32.h, asm-generic/unistd.h)", "spellings": "all strings, through lower(): every key of the package's architecture map plus unknown names; any letter case; additionally every string of 1..12 seven-bit ASCII characters as a byte vector (for lookups that order strings or search a sorted list)"},
 		Outside:    []string{"syscalls that no vendored oracle lists (newer than the sources)", "names the table has but an oracle lacks (only agreement on common names is decided)", "the generator arch/mk_syscalls_linux.go (build-ignored, needs the kernel tree)"},
 		Assumptions: []string{"strings are compared only by ==, map lookup and ToLower (equality-atom encoding is exact for these)", "lower() is an uninterpreted function with host-supplied values on every concrete string met, idempotence, and 'a caseless string is its own only variant'", "GetInfo(\"\") (GOARCH default) is covered per build target in C19"},
 		Trusted:    []string{"vendored oracle data under /verif/oracle (provenance recorded in the files)", "gosym engine, equality-atom string encoding; models replayed natively", "z3/cvc5"},
